@@ -112,7 +112,7 @@ func init() { register(c01{}) }
 
 func (c01) ID() string { return "C01" }
 func (c01) Runs(tier string) int {
-	return tierLen(tier, 1500, 24000)
+	return tierLen(tier, 6000, 60000)
 }
 
 func (c01) Gen(r *kern.Rng, tier string, idx int) *Trace {
@@ -196,7 +196,7 @@ type c09 struct{}
 func init() { register(c09{}) }
 
 func (c09) ID() string           { return "C09" }
-func (c09) Runs(tier string) int { return tierLen(tier, 1200, 16000) }
+func (c09) Runs(tier string) int { return tierLen(tier, 5000, 60000) }
 
 // opsWithFlushAt builds a history for data of length total whose Flush calls
 // sit at the given byte offsets (sorted, may repeat), with writes split at
@@ -395,7 +395,7 @@ type c10 struct{}
 func init() { register(c10{}) }
 
 func (c10) ID() string           { return "C10" }
-func (c10) Runs(tier string) int { return tierLen(tier, 1500, 20000) }
+func (c10) Runs(tier string) int { return tierLen(tier, 5000, 50000) }
 
 func (c10) Gen(r *kern.Rng, tier string, idx int) *Trace {
 	maxLen := tierLen(tier, 200000, 1<<20)
@@ -555,7 +555,7 @@ type c12 struct{}
 func init() { register(c12{}) }
 
 func (c12) ID() string           { return "C12" }
-func (c12) Runs(tier string) int { return tierLen(tier, 1500, 20000) }
+func (c12) Runs(tier string) int { return tierLen(tier, 5000, 50000) }
 
 // genH1 draws an "earlier life" of a Writer: possibly abandoned mid-stream.
 func genH1(r *kern.Rng, total int) []scen.WOp {
@@ -744,7 +744,7 @@ type c14 struct{}
 func init() { register(c14{}) }
 
 func (c14) ID() string           { return "C14" }
-func (c14) Runs(tier string) int { return tierLen(tier, 500, 5000) }
+func (c14) Runs(tier string) int { return tierLen(tier, 500, 2500) }
 
 func (c14) Gen(r *kern.Rng, tier string, idx int) *Trace {
 	maxLen := tierLen(tier, 200000, 600000)
@@ -801,6 +801,9 @@ func faultRunCheck(tr *Trace, o *Outcome, rec *scen.WRec, feat map[string]string
 		return
 	}
 	o.stat("sink_faults_fired", 1)
+	if sc.Fault != nil && sc.Fault.Transient {
+		o.stat("sink_faults_transient", 1)
+	}
 	k := seg.Sink.FailedAtCall
 	seen := false
 	for i, op := range rec.Ops {
@@ -891,7 +894,7 @@ func (c14) Exec(tr *Trace, keep bool) *Outcome {
 	for i, k := range ks {
 		c := tr.Clone()
 		c.Sweep = false
-		c.W.Fault = &kern.SinkFault{AtCall: k, Short: (k+i)%3 == 0}
+		c.W.Fault = &kern.SinkFault{AtCall: k, Short: (k+i)%3 == 0, Transient: (k+i)%4 == 1}
 		c.W.FaultSeg = 0
 		r2, l2 := runW(c.W, true, keep)
 		o.fold(l2, r2.Segs[0].Sink.Failed)
@@ -1027,7 +1030,7 @@ func c16Systematic(tier string) int {
 
 func (c16) Runs(tier string) int {
 	// systematic short histories + constructor table + random long ones
-	return c16Systematic(tier) + 16*3 + tierLen(tier, 600, 8000)
+	return c16Systematic(tier) + 16*3 + tierLen(tier, 2500, 30000)
 }
 
 func nthHistory(idx int) []scen.WOp {
@@ -1186,7 +1189,7 @@ type c19 struct{}
 func init() { register(c19{}) }
 
 func (c19) ID() string           { return "C19" }
-func (c19) Runs(tier string) int { return tierLen(tier, 1200, 16000) }
+func (c19) Runs(tier string) int { return tierLen(tier, 5000, 50000) }
 
 func (c19) Gen(r *kern.Rng, tier string, idx int) *Trace {
 	maxLen := tierLen(tier, 300000, 2<<20)
